@@ -101,6 +101,8 @@ pub struct Stats {
     pub journal_lost: u64,
     pub checks: u64,
     pub noncausal_gen: u64,
+    pub misuse_clashes: u64,
+    pub stale_restarts: u64,
 }
 
 impl Stats {
@@ -129,6 +131,8 @@ impl Stats {
         self.journal_lost += o.journal_lost;
         self.checks += o.checks;
         self.noncausal_gen += o.noncausal_gen;
+        self.misuse_clashes += o.misuse_clashes;
+        self.stale_restarts += o.stale_restarts;
     }
     pub fn faults_fired(&self) -> u64 {
         self.dup_delivers + self.stale_merges + self.crashes + self.bounces + self.drops + self.partitions + self.stalls + self.clock_jumps + self.overtaking + self.journal_lost
@@ -914,6 +918,9 @@ impl<S: Sut> World<S> {
             x.stalled = false;
         }
         self.stats.restarts += 1;
+        if stale {
+            self.stats.stale_restarts += 1;
+        }
         // C19: the restored replica, brought up to date with what the crash lost, is the replica that crashed
         if let Some((ghost, gk, lost)) = self.nodes[node].ghost.take() {
             if !stale && self.cfg.on("restart.ghost") {
